@@ -4,7 +4,7 @@ CONSTANTS
   Kinds = {"commit", "ack"}
   AccountCls = {"ok", "otheraccount", "otheraddr", "otherroot", "absent", "truncated", "padded", "wrongnonce", "wrongbalance", "wrongstorage", "forgedstorage", "wrongcode", "empty"}
   StorageCls = {"ok", "otherslot", "othervalue", "absentkey", "truncated", "padded", "zeroproofs", "twoproofs", "keymismatch", "suffixkey"}
-  HeightCls = {"ok", "unknown", "abovehead", "abovestored", "withindelay"}
+  HeightCls = {"ok", "unknown", "abovehead", "abovestored", "withindelay", "delayinstalled"}
   PathCls = {"ok", "otherseq", "otherkind", "otherchain"}
   ValueCls = {"ordinary", "leadzero1", "leadzero3"}
 INVARIANTS OnlyAllRight
